@@ -163,6 +163,15 @@ def do(op: dict) -> str:
         SOLVERS[op["sid"]] = (kind, sv)
         hdr = f"n={p.n_states} maxbs={op['maxbs']} dev={sv.n_devices} bsz={sv.batch_size} npad={sv.n_pad} "
         return hdr + f"ok thr={frac(Fraction(float(sv.conv_threshold)))} " + state_line(kind, sv, False, 0, [])
+    if o == "space":
+        import itertools
+        from mdpax.utils.spaces import create_range_space
+        mins, maxs = op["mins"], op["maxs"]
+        sp, fn = create_range_space(jnp.array(mins), jnp.array(maxs))
+        sp = np.asarray(sp).reshape(-1, len(mins))
+        ext = np.array(list(itertools.product(*[range(a - 2, b + 3) for a, b in zip(mins, maxs)])), dtype=np.int32)
+        idx = np.asarray(jax.vmap(fn)(jnp.array(ext)))
+        return "space=" + ";".join(",".join(str(int(x)) for x in r) for r in sp) + " idx=" + ",".join(str(int(x)) for x in idx)
     if o == "semisweep":
         p = PROBLEMS[op["id"]]
         key = (op["id"], op["maxbs"], "semi", op.get("shuffle", 0), op.get("random_seed", 0))
